@@ -50,7 +50,7 @@ class Undecided:
         return 'undecided@%s' % getattr(self.at, 'lineno', '?')
 
 
-def eval_function(folder: Folder, fi: FuncInfo, args: dict[str, Any], max_steps: int = 500, on_unknown: Any = None, env_out: dict | None = None, body: list[ast.stmt] | None = None, outcomes: bool = False) -> Any:
+def eval_function(folder: Folder, fi: FuncInfo, args: dict[str, Any], max_steps: int = 500, on_unknown: Any = None, env_out: dict | None = None, body: list[ast.stmt] | None = None, outcomes: bool = False, on_effect: Any = None) -> Any:
     """`on_unknown(expr)` may supply the value of an expression the folder can not evaluate (the clock, say); `env_out`
     receives the final environment - an object passed as a dict ({'self': {...}}) shows the attributes that were stored."""
     env: dict[str, Any] = dict(args)
@@ -76,6 +76,11 @@ def eval_function(folder: Folder, fi: FuncInfo, args: dict[str, Any], max_steps:
                 raise _Return(ev(st.value) if st.value is not None else None)
             if isinstance(st, ast.Raise) and outcomes:
                 raise _Raise(st)
+            if isinstance(st, (ast.Continue, ast.Break)) and outcomes and body is not None:
+                # the statements of a loop body are being evaluated for one turn: this ends the turn
+                raise _Return('continue' if isinstance(st, ast.Continue) else 'break')
+            if isinstance(st, ast.Expr) and isinstance(st.value, ast.Call) and on_effect is not None and on_effect(st.value, env):
+                continue
             if isinstance(st, (ast.Pass, ast.Assert)):
                 continue
             if isinstance(st, ast.Expr) and isinstance(st.value, ast.Constant):
